@@ -51,9 +51,14 @@ def rule_var(chk):
     okr = True
     for r in rets:
         c = r.value
+        if isinstance(c, ast.Name):
+            from ..framework import assigned_values as _av
+            vals = _av(ca, c.id)
+            c = vals[0] if len(vals) == 1 and vals[0] is not None else c
         okr = okr and isinstance(c, ast.Call) and len(c.args) <= 1 and not c.keywords and \
             (not c.args or (isinstance(c.args[0], ast.Constant) and c.args[0].value is None))
-    extra = [n for n in iter_own_nodes(ca.node) if isinstance(n, (ast.If, ast.Assign, ast.Global, ast.For, ast.While, ast.Try, ast.With))]
+    extra = [n for n in iter_own_nodes(ca.node) if isinstance(n, (ast.If, ast.Global, ast.For, ast.While, ast.Try, ast.With))]
+    extra += [n for n in iter_own_nodes(ca.node) if isinstance(n, ast.Assign) and not (isinstance(n.value, ast.Call) and isinstance(n.value.func, ast.Attribute) and n.value.func.attr == "get")]
     chk.req(okr and not extra, "C05.read", "current_action:returns-var.get(None)", chk.where(ca),
             good="current_action() is exactly <var>.get(None)", fail="current_action does more than read the context variable with a None default")
     return var
